@@ -46,6 +46,9 @@ type HarnessResult struct {
 	Intrinsics    []string          `json:"intrinsics"`
 	Stubs         []string          `json:"stubs"`
 	Assumptions   []string          `json:"assumptions"`
+	Summarised    []string          `json:"summarised_pure_callees"`
+	ForkSites     map[string]int    `json:"fork_sites,omitempty"`
+	Unvalidatable int               `json:"paths_not_natively_validatable"`
 	Exhaustive    bool              `json:"exhaustive"`
 	Unwind        int               `json:"unwind"`
 	Terms         int               `json:"terms"`
@@ -57,11 +60,11 @@ var execInitPkgs = map[string]bool{
 	"strings": true, "unicode": false, "internal/byteorder": true, "internal/bytealg": false,
 	"golang.org/x/crypto/cryptobyte": true, "golang.org/x/crypto/cryptobyte/asn1": true,
 	"github.com/things-go/go-socks5": true, "github.com/things-go/go-socks5/statute": true,
-	"github.com/mastercactapus/proxyprotocol": true, "internal/itoa": true, "internal/stringslite": true,
+	"github.com/mastercactapus/proxyprotocol": true, "github.com/miekg/dns": true, "internal/itoa": true, "internal/stringslite": true,
 	"math": true, "sort": true, "strconv": true, "internal/poll": false, "crypto/tls": false,
 	"hash/fnv": true, "internal/godebug": false, "cmp": true, "iter": true, "maps": true,
 	"container/list": true, "io/fs": false, "net": false, "sync": false, "sync/atomic": true,
-	"golang.org/x/time/rate": true, "encoding/hex": true, "encoding/base64": true, "unique": false,
+	"golang.org/x/time/rate": true, "encoding/hex": true, "encoding/base64": true, "encoding/base32": true, "unique": false,
 }
 
 func main() {
@@ -81,6 +84,7 @@ func main() {
 		smtLog    = flag.String("smt-log", "", "write solver input to this file")
 		poolAdv   = flag.Bool("pool-adversarial", false, "sync.Pool.Get may return any pooled object or a fresh one")
 		verbose   = flag.Bool("v", false, "verbose")
+		jobsFile  = flag.String("jobs", "", "JSON list of harness jobs (per-harness options)")
 		pkgs      multiFlag
 		harnesses multiFlag
 		paramFl   multiFlag
@@ -158,6 +162,67 @@ func main() {
 	poolAdversarial = *poolAdv
 	var results []HarnessResult
 	exit := 0
+	type job struct {
+		Harness         string         `json:"harness"`
+		Params          map[string]int `json:"params"`
+		Unwind          int            `json:"unwind"`
+		AllocLimit      uint64         `json:"alloc_limit"`
+		Preempt         int            `json:"preempt"`
+		PoolAdversarial bool           `json:"pool_adversarial"`
+		BudgetS         int            `json:"budget_s"`
+		MaxPaths        int            `json:"max_paths"`
+		Traces          int            `json:"traces"`
+		TraceEvery      int            `json:"trace_every"`
+		TimeoutMs       int            `json:"timeout_ms"`
+		NoSummaries     bool           `json:"no_summaries"`
+	}
+	if *jobsFile != "" {
+		b, err := os.ReadFile(*jobsFile)
+		if err != nil {
+			fatal("jobs: %v", err)
+		}
+		var jobs []job
+		if err := json.Unmarshal(b, &jobs); err != nil {
+			fatal("jobs: %v", err)
+		}
+		for _, j := range jobs {
+			i := strings.LastIndex(j.Harness, ".")
+			pkg := prog.ImportedPackage(j.Harness[:i])
+			if pkg == nil {
+				fatal("harness package %s not loaded", j.Harness[:i])
+			}
+			fn := pkg.Func(j.Harness[i+1:])
+			if fn == nil {
+				fatal("harness %s not found", j.Harness)
+			}
+			cliParams = map[string]int{}
+			for k, v := range j.Params {
+				cliParams[k] = v
+			}
+			poolAdversarial = j.PoolAdversarial
+			o := runOpts{solver: *solverBin, timeoutMs: *timeoutMs, unwind: *unwind, allocLimit: j.AllocLimit, maxPaths: j.MaxPaths,
+				budgetS: j.BudgetS, preempt: j.Preempt, nTraces: *nTraces, traceEvery: *traceEv, verbose: *verbose, noSummaries: j.NoSummaries}
+			if j.Unwind > 0 {
+				o.unwind = j.Unwind
+			}
+			if j.Traces > 0 {
+				o.nTraces = j.Traces
+			}
+			if j.TraceEvery > 0 {
+				o.traceEvery = j.TraceEvery
+			}
+			if j.TimeoutMs > 0 {
+				o.timeoutMs = j.TimeoutMs
+			}
+			res := runHarness(prog, buildPkg, fn, j.Harness, o)
+			results = append(results, res)
+			// write incrementally so a killed process still leaves what it finished
+			if *out != "" {
+				bb, _ := json.MarshalIndent(results, "", " ")
+				os.WriteFile(*out, bb, 0o644)
+			}
+		}
+	}
 	for _, h := range harnesses {
 		i := strings.LastIndex(h, ".")
 		pkgPath, fname := h[:i], h[i+1:]
@@ -205,6 +270,7 @@ type runOpts struct {
 	traceEvery int
 	smtLog     string
 	verbose    bool
+	noSummaries bool
 }
 
 func runHarness(prog *ssa.Program, buildPkg func(*ssa.Package), fn *ssa.Function, name string, o runOpts) HarnessResult {
@@ -252,6 +318,7 @@ func runHarness(prog *ssa.Program, buildPkg func(*ssa.Package), fn *ssa.Function
 	}
 	in.opaqueT = types.NewNamed(types.NewTypeName(0, nil, "verif.opaque", nil), types.NewStruct(nil, nil), nil)
 	in.harnessPkg = fn.Pkg.Pkg.Path()
+	in.noSummaries = o.noSummaries
 	// harness replacements: functions named Repl_<anything> with a doc marker are bound via the
 	// package-level map "Replacements" (map[string]any of callee name -> func)
 	bindReplacements(in, fn.Pkg)
@@ -345,8 +412,10 @@ func runHarness(prog *ssa.Program, buildPkg func(*ssa.Package), fn *ssa.Function
 		SolverTimeS: solver.solveTime.Seconds(), WallS: time.Since(t0).Seconds(), Steps: in.steps,
 		Violations: e.violations, Inconclusive: e.inconclusive, Covers: e.covers, Traces: e.traces, Samples: e.samples,
 		Functions: sortedKeys(e.funcsExecuted), Intrinsics: sortedKeys(e.intrinsicsHit), Stubs: sortedKeys(e.stubsHit),
-		Assumptions: sortedKeys(e.assumptions), Exhaustive: exhaustive && len(e.inconclusive) == 0, Unwind: e.unwind, Terms: len(termList)}
+		Assumptions: sortedKeys(e.assumptions), Summarised: sortedKeys(e.summarised), Exhaustive: exhaustive && len(e.inconclusive) == 0, Unwind: e.unwind, Terms: len(termList)}
 	res.FuncHashes = repoFileHashes(prog, e.funcsExecuted)
+	res.ForkSites = topSites(e.siteHist, 12)
+	res.Unvalidatable = e.unvalidatable
 	if res.Violations == nil {
 		res.Violations = []Violation{}
 	}
@@ -435,4 +504,21 @@ func bindReplacements(in *Interp, pkg *ssa.Package) {
 			in.replace[target] = f
 		}
 	}
+}
+
+func topSites(h map[string]int, n int) map[string]int {
+	type kv struct {
+		k string
+		v int
+	}
+	var l []kv
+	for k, v := range h {
+		l = append(l, kv{k, v})
+	}
+	sort.Slice(l, func(i, j int) bool { return l[i].v > l[j].v })
+	out := map[string]int{}
+	for i := 0; i < len(l) && i < n; i++ {
+		out[l[i].k] = l[i].v
+	}
+	return out
 }
